@@ -26,6 +26,7 @@ import (
 	"sort"
 	"strings"
 	"sync"
+	"sync/atomic"
 	"syscall"
 	"testing"
 	"time"
@@ -803,6 +804,70 @@ func TestVerifC14(t *testing.T) {
 	} {
 		line := "c14 client 1 0 0 7b7d - 7b7d " + c.core
 		r.Compare("legacy-arms", line, c.want, r.Model(line))
+	}
+	// (f) no poisoning by numbers: thousands of requests that are each refused on their own - clients naming an
+	// unknown bridge, undecodable client and proxy polls, answers for unknown sessions - and then a complete
+	// rendezvous on the same broker: it must go through as if those requests had never been made
+	{
+		flood := r.N(2600, 9000)
+		vj, _ := json.Marshal(map[string]string{"offer": "flood", "nat": "restricted", "fingerprint": "00000000000000000000000000000000000000A1"})
+		ansUnknown, _ := messages.EncodeAnswerRequest("ANSWER-X", "no-such-session")
+		bodies := []struct {
+			path string
+			body []byte
+		}{
+			{"/client", append([]byte("1.0\n"), vj...)},
+			{"/client", []byte("1.0\n{not json")},
+			{"/proxy", []byte(`{"Sid":"","Version":"1.3"}`)},
+			{"/answer", ansUnknown},
+		}
+		hc := &http.Client{Transport: &http.Transport{MaxIdleConnsPerHost: 32}, Timeout: 20 * time.Second}
+		var fwg sync.WaitGroup
+		var sent, failed int64
+		fsem := make(chan struct{}, 32)
+		for i := 0; i < flood; i++ {
+			fwg.Add(1)
+			fsem <- struct{}{}
+			go func(i int) {
+				defer fwg.Done()
+				defer func() { <-fsem }()
+				b := bodies[i%len(bodies)]
+				if i%len(bodies) != 0 && i%8 != i%len(bodies) {
+					b = bodies[0] // most of the flood are unknown-bridge clients
+				}
+				resp, err := hc.Post("http://"+flowAddr+b.path, "application/octet-stream", bytes.NewReader(b.body))
+				if err != nil {
+					atomic.AddInt64(&failed, 1)
+					return
+				}
+				io.Copy(io.Discard, resp.Body)
+				resp.Body.Close()
+				atomic.AddInt64(&sent, 1)
+			}(i)
+		}
+		fwg.Wait()
+		hc.CloseIdleConnections()
+		poll, _ := messages.EncodeProxyPollRequestWithRelayPrefix("flow-f", "standalone", "unrestricted", 0, "")
+		pc := make(chan c14Resp, 1)
+		go func() { pc <- post("/proxy", nil, poll, long) }()
+		time.Sleep(300 * time.Millisecond)
+		cj, _ := json.Marshal(map[string]string{"offer": "flow-f", "nat": "restricted"})
+		cc := make(chan c14Resp, 1)
+		go func() { cc <- post("/client", nil, append([]byte("1.0\n"), cj...), long) }()
+		pr := <-pc
+		ans, _ := messages.EncodeAnswerRequest("ANSWER-F", "flow-f")
+		a := post("/answer", nil, ans, 8*time.Second)
+		c := <-cc
+		want, _ := (&messages.ClientPollResponse{Answer: "ANSWER-F"}).EncodePollResponse()
+		got := fmt.Sprintf("poll=%d answer=%d client=%s", pr.status, a.status, c.canon())
+		line := fmt.Sprintf("%d refused requests (unknown-bridge clients, undecodable polls, answers for unknown sessions; %d got a response, %d transport errors), then poll + client + answer", flood, atomic.LoadInt64(&sent), atomic.LoadInt64(&failed))
+		r.Case("flow/rendezvous-after-a-flood-of-refused-requests", line+" -> "+got, true)
+		if exp := "poll=200 answer=200 client=200 " + vh.Hex(want); got != exp {
+			r.OracleFail("scripted-flow:rendezvous-after-refused-requests", line, got, "expected "+exp+": refused requests leave nothing behind, however many there were")
+		}
+		if f := atomic.LoadInt64(&failed); f > 0 {
+			r.Note("flood: %d requests ended in a transport error", f)
+		}
 	}
 	alive("end of run")
 	logMu.Lock()
